@@ -962,6 +962,45 @@ func resetConflictsRun(t *testing.T, run *ev.Run, idx, nblocks int) {
 	_ = rep.Store.RealClose()
 }
 
+// resetGCRun: a pruning node (RemoveUntraceableBlocks) below MaxTraceableBlocks
+// blocks, where a reset is still permitted, is reset and then goes on in the
+// same process and after a reopen.
+func resetGCRun(t *testing.T, run *ev.Run, idx, nblocks int) {
+	proto := func(c *config.Blockchain) { vchain.AllForks(c); c.MaxTraceableBlocks = 1000 }
+	h := vchain.BuildHistory(t, vchain.HistoryCfg{Idx: idx, Blocks: nblocks, Proto: proto, PName: "all-forks-mtb1000"})
+	defer h.P.Close()
+	if h.P.Rejected != nil {
+		run.Violation("producer-rejected-own-block", fmt.Sprint("run", idx), h.P.Rejected.Error(), nil)
+		return
+	}
+	cfg := func(c *config.Blockchain) {
+		proto(c)
+		c.RemoveUntraceableBlocks = true
+		c.GarbageCollectionPeriod = uint32(1 + idx%4)
+	}
+	r := rng.New(uint64(idx)*13 + 19)
+	target := 4 + r.Intn(len(h.P.Raw)-6)
+	id := fmt.Sprintf("reset-gc%d/from%d/to%d", idx, len(h.P.Raw), target)
+	if !run.Want(id) {
+		return
+	}
+	run.Case(id, true)
+	var v *outcome
+	func() {
+		defer func() {
+			if x := recover(); x != nil {
+				v = &outcome{"reset:panic-on-a-pruning-node-below-MaxTraceableBlocks", fmt.Sprint(x)}
+			}
+		}()
+		v = resetThenContinue(t, run, h, cfg, target)
+	}()
+	if v != nil {
+		run.Violation(v.sig+":pruning-node", id, v.detail, map[string]any{"target": target, "from": len(h.P.Raw)})
+		return
+	}
+	run.Obs("resets_of_pruning_nodes", 1)
+}
+
 func checkResetPrefix(t *testing.T, run *ev.Run, h *vchain.History, cfg func(*config.Blockchain), content map[string][]byte, backend string, target int, final map[string][]byte) *outcome {
 	stage := stageName(content)
 	rep, dir, err := reopen(t, content, backend, cfg)
@@ -1285,6 +1324,9 @@ func TestCheck(t *testing.T) {
 		}
 		for i := 0; i < ev.Pick(3, 30); i++ {
 			resetConflictsRun(t, run, 520+i, ev.Pick(20, 40))
+		}
+		for i := 0; i < ev.Pick(3, 24); i++ {
+			resetGCRun(t, run, 560+i, ev.Pick(24, 50))
 		}
 	}
 	if do("page") {
